@@ -65,4 +65,9 @@ theorem lib_HMS_IsValid_eq (h m s : Int) : lib_HMS_IsValid ⟨h, m, s⟩ = some 
 theorem lib_Date_IsValid_eq (y m d : Int) : lib_Date_IsValid ⟨y, m, d⟩ = some (DateV.isValid ⟨y, m, d⟩) := by
   simp only [lib_Date_IsValid, DateV.isValid, pure]
 
+/-- `WeekMonth.IsValid` (event/rules_lib), the range check of the JSON-valued rule type, is the model's `WM.isValid` -/
+theorem rules_WeekMonth_IsValid_eq (wi wd m : Int) :
+    rules_WeekMonth_IsValid ⟨wi, wd, m⟩ = some (WM.isValid wi wd m) := by
+  simp only [rules_WeekMonth_IsValid, WM.isValid, pure]
+
 end Starcal.SrcTie
